@@ -88,22 +88,11 @@ def expandTildeL (l : Lim) (home str : Bytes) : Option Bytes :=
   | 126 :: r => if l.fits (home.length + r.length) then some (home ++ r) else none
   | _ => some str
 
-/-- `defaultconf(home)`: `snprintf(path, PATH_MAX, "%s/.mdsort.conf", home)`; `none` is `errc(1, ENAMETOOLONG, ...)`. -/
-def defaultconfL (L : Limits) (home : Bytes) : Option Bytes := pathjoinL L.pathMax home (ofString ".mdsort.conf")
-
-/-- What `readenv` reads: the host name as the kernel has it, `$HOME` (or the password entry), `$TMPDIR` (or `/tmp`). -/
-structure RawEnv where
-  hostname : Bytes
-  home : Bytes
-  tmpdir : Bytes
-deriving Repr
-
-/-- `readenv`: host name up to the first dot, home, temporary directory; `none` is `err(1, ...)` / `errc(1, ENAMETOOLONG, ...)`:
-`gethostname` into `ev_hostname` fails when the name with its terminator does not fit, the two `strlcpy` are tested. -/
-def readenvL (L : Limits) (raw : RawEnv) : Option (Bytes × Bytes × Bytes) :=
-  match strlcpyL L.hostMax raw.hostname, strlcpyL L.pathMax raw.home, strlcpyL L.pathMax raw.tmpdir with
-  | some h, some home, some tmp => some (h.takeWhile (· != 46), home, tmp)
-  | _, _, _ => none
+/-- `readenv`: `gethostname(env->ev_hostname, sizeof(env->ev_hostname))` - it fails (`err(1, "gethostname")`, `none`) when
+the name with its terminator does not fit (glibc: `ENAMETOOLONG`; the shim does the same) - then the name is cut at its
+first dot.  (`defaultconf` and the `strlcpy` of HOME / TMPDIR / TZ in `readenv` are modelled separately: `Model/Start.lean`, package ce8.) -/
+def readHostL (l : Lim) (kernelName : Bytes) : Option Bytes :=
+  (strlcpyL l kernelName).map fun h => h.takeWhile (· != 46)
 
 /-! ## match.c, expr.c -/
 
